@@ -129,7 +129,7 @@ var (
 		0x3a, 0x60, 0x08, 0x55,
 		0x32, 0x60, 0x09, 0x55,
 		0x00}
-	contractKinds = [][]byte{rtCounter, rtRevert, rtContext}
+	contractKinds = [][]byte{rtCounter, rtRevert, rtContext, rtEmitter} // rtEmitter: budget.go
 )
 
 func slotKeys(n int) []common.Hash {
